@@ -244,7 +244,7 @@ def main():
             "enable": "none: static analysis reads /repo's sources, no hooks or instrumentation exist",
             "baseline_off_cmd": "cd /repo && /venv/bin/python -m pytest -ra -q -p no:cacheprovider "
                                 "--timeout=900 --continue-on-collection-errors tests",
-            "source_commits": sorted(set(fixes)),
+            "source_commits": [],
             "add_only": True,
         },
         "engines": [{
@@ -259,10 +259,12 @@ def main():
         }],
         "checks": checks,
         "not_applicable": na,
-        "notes": "All checks are static: no check imports or runs ctparse. Exit 2 = analysis "
-                 "could not complete (never a violation). Genuine defects found while building "
-                 "were repaired by 'fix:' commits in /repo (listed in known_findings.jsonl as "
-                 "fixed:) or are listed there as known findings.",
+        "notes": "All checks are static: no check imports or runs ctparse; there are no hooks, so "
+                 "hooks.source_commits is empty. Exit 2 = analysis could not complete (never a "
+                 "violation). Genuine defects found while building were repaired by unguarded "
+                 "'fix:' commits in /repo (" + ", ".join(sorted(set(fixes))) + "; each listed in "
+                 "known_findings.jsonl as 'fixed:' with the failing input) or are listed there as "
+                 "known findings (one: C05 two-digit-year siblings).",
     }
     with open(os.path.join(VERIF, "MANIFEST.json"), "w") as fd:
         json.dump(man, fd, indent=1)
